@@ -30,7 +30,7 @@ EXHAUSTIVE_SUBDOMAINS = []
 ASSUMPTIONS = ["positions are judged only for the simulated (cleanly encoded) aircraft; noise addresses are judged for robustness, "
                "listing and the Comm-B rule only", "between 59 s and 61 s of silence neither presence nor absence is judged",
                "longitude compared modulo 360; error measured as great-circle angle"]
-REQUIRED = ["calls", "batch_processed_at_tnow_exactly_zero", "transitions", "branch_ref", "branch_global", "branch_none", "evicted", "reappeared", "commb_attached", "commb_unknown_ignored",
+REQUIRED = ["calls", "same_squitter_string_repeated", "batch_processed_at_tnow_exactly_zero", "transitions", "branch_ref", "branch_global", "branch_none", "evicted", "reappeared", "commb_attached", "commb_unknown_ignored",
             "surface_update", "airborne_update", "case_compare", "run_loop", "gap_lt10", "gap_10_180", "gap_gt180", "cross_antimeridian",
             "cross_equator", "cross_nl", "second_tracker_alive"]
 
@@ -184,6 +184,7 @@ def gen_history(rng, scen_name=None, window=False):
     mute = {}  # addr -> silent until
     outage_until = -1.0
     transitions = [0]
+    exact_repeats = [0]
     for _ in range(n):
         c = rng.random()
         if t < outage_until:
@@ -226,7 +227,14 @@ def gen_history(rng, scen_name=None, window=False):
             m = pos_msg(rng, a)
             events.append((t, "adsb", m, a.addr, ("pos", a.lat, a.lon, a.surface, a.tainted, a.scen)))
         elif r < 0.78:
-            events.append((t, "adsb", other_adsb(rng, a), a.addr, None))
+            if rng.random() < 0.25 and getattr(a, "last_other", None):
+                # the very same string again (an identification squitter does not change for the whole flight): still a message
+                # heard from this aircraft - it keeps it listed
+                events.append((t, "adsb", a.last_other, a.addr, None))
+                exact_repeats[0] += 1
+            else:
+                a.last_other = other_adsb(rng, a)
+                events.append((t, "adsb", a.last_other, a.addr, None))
             if rng.random() < 0.12:
                 # the same aircraft heard twice with the SAME stamp (two receivers, a coarse clock): two velocity squitters, one
                 # of them with "no vertical rate information"
@@ -253,7 +261,8 @@ def gen_history(rng, scen_name=None, window=False):
         pivot = events[rng.randrange(len(events))][0]
         events = [(t_ - pivot,) + tuple(rest) for (t_, *rest) in events]
         zero = True
-    return {"events": events, "rx": rx, "commb_only": commb_only, "transitions": transitions[0], "clock_through_zero": zero}
+    return {"events": events, "rx": rx, "commb_only": commb_only, "transitions": transitions[0], "clock_through_zero": zero,
+            "exact_repeats": exact_repeats[0]}
 
 
 COMMB_FIELDS = {"tas": "tas50", "roll": "roll50", "rtrk": "rtrk50", "trk50": "trk50", "gs50": "gs50", "ias": "ias60", "hdg": "hdg60",
@@ -471,6 +480,8 @@ def m_history(ctx, case):
         ctx.hit("gap_lt10" if g < 10 else "gap_10_180" if g <= 180 else "gap_gt180")
     if hist["transitions"]:
         ctx.hit("transitions", hist["transitions"])
+    if hist.get("exact_repeats"):
+        ctx.hit("same_squitter_string_repeated", hist["exact_repeats"])
     up, ok = play(ctx, hist, lower=False, judge=True)
     if not ok:
         return
